@@ -13,26 +13,31 @@ pub fn insert_keyword_statement_terminators(input: Vec<Token>, _file_id: &FileId
 
     let mut in_end_statement = false;
     for tok in input {
-        if !in_end_statement && tok.token_type == TokenType::EndIf {
-            in_end_statement = true;
-        } else if in_end_statement
-            && tok.token_type != TokenType::Semicolon
-            && tok.token_type != TokenType::Comment
-            && tok.token_type != TokenType::Whitespace
-        {
-            // TODO remove the span and line/col
-            output.push(Token {
-                token_type: TokenType::Semicolon,
-                span: tok.span.clone(),
-                line: tok.line,
-                col: tok.col,
-                text: "".to_owned(),
-            });
+        // White space, line breaks and comments may separate the keyword from
+        // its terminator.
+        let is_trivia = matches!(
+            tok.token_type,
+            TokenType::Comment | TokenType::Whitespace | TokenType::Newline
+        );
+        if in_end_statement && !is_trivia {
+            if tok.token_type != TokenType::Semicolon {
+                // TODO remove the span and line/col
+                output.push(Token {
+                    token_type: TokenType::Semicolon,
+                    span: tok.span.clone(),
+                    line: tok.line,
+                    col: tok.col,
+                    text: "".to_owned(),
+                });
+            }
             in_end_statement = false;
         }
-
+        // The token after the keyword can itself be a keyword that needs a
+        // terminator (END_IF END_IF).
+        if tok.token_type == TokenType::EndIf {
+            in_end_statement = true;
+        }
         output.push(tok);
     }
-
     output
 }
